@@ -590,6 +590,15 @@ int main(int argc, char **argv)
         return vp::finish();
     }
 
+    // ---- the three indices must be atomic objects: both threads read and write them (shard 0 of each part reports it once)
+    if(vp::ctx().shard == 0) {
+        rtosc::ThreadLink probe(16, 2);
+        vp::eval(1);
+        if(!vpsched::view(probe).indices_atomic)
+            vp::violation("data-race|ring-index-declaration|not-atomic", "decl|indices", "a ring index (write, read or read_lookahead) is no longer a std::atomic object: writer and reader access it concurrently without synchronisation, which is a data race by the C++ memory model whatever values the explored schedules produce");
+    }
+    if(vp::replaying() && vp::ctx().replay == "decl|indices") { vp::ctx().replay_hits = 1; return vp::finish(); }
+
     // ---- Part B (runs in shard 0 only; the bfs engine forks its own workers) -------------------------
     const bool is_bfs_shard = vp::ctx().shard == 0;
     if(is_bfs_shard && mode != "A") {
